@@ -96,6 +96,8 @@ func (k *wk) probe(w *Wiring, variant int) {
 				return []string{"null"}, nil
 			case pdf.Integer:
 				return []string{"int"}, nil
+			case pdf.Name:
+				return []string{"name"}, nil
 			case pdf.Reference:
 				return []string{"ref"}, nil
 			case pdf.Dict:
